@@ -3,21 +3,21 @@ CONSTANTS
   ArgsOf <- MCArgs
   InitHeaps <- MCInit2
   MaxDepth = 1
-  Breaks <- BreaksQ
-  Degs <- DegsQ
-  MaxNpts = 5
-  Acts = {"CvSplit"}
+  Breaks <- BreaksT
+  Degs <- DegsT
+  MaxNpts = 6
+  Acts = {"CvKnotInsert"}
   PtKinds = {"gen"}
   WtKinds = {"none", "gen"}
   ExtraNodes <- Extra0
-  NodeSize = 2
+  NodeSize = 3
   Scenario = "single"
   PrepDepth = 0
   OtherDegs <- DegsQ
   OtherMaxNpts = 4
 INVARIANT WellFormed
 PROPERTY FailedIsNoOp
-PROPERTY SplitRestricts
+PROPERTY InsertPreserves
 ACTION_CONSTRAINT Log
 VIEW View
 CHECK_DEADLOCK FALSE
